@@ -760,6 +760,11 @@ func worker(h *NtfnsHandler) {
 	defer Recover()
 	defer h.quitWg.Done()
 
+	// the follower, started alongside, updates bestBlock under memMtx
+	h.memMtx.Lock()
+	bestHeight := h.bestBlock.Height
+	h.memMtx.Unlock()
+
 	mwdb.View(h.walletMgr.db, func(tx mwdb.ReadTransaction) error {
 		wss, err := h.walletMgr.syncStore.GetAllWalletStatus(tx)
 		if err != nil {
@@ -772,7 +777,7 @@ func worker(h *NtfnsHandler) {
 					"walletId":     ws.WalletID,
 					"ready":        ws.Ready(),
 					"removed":      ws.IsRemoved(),
-					"best":         h.bestBlock.Height,
+					"best":         bestHeight,
 				})
 			// remove
 			if ws.IsRemoved() {
